@@ -9,24 +9,28 @@ Proof. intros CW F7 F23 F47 CS bs OK. exact (proj1 (cache_coherent_reach cfg CW 
 Lemma restart_transparent_partial cfg : cfg_wf cfg -> fix_block_dirty cfg = true -> fix_gpv_drop cfg = true -> fix_whitelist cfg = true ->
   0 < csize cfg -> forall bs, blocks_ok cfg bs ->
   obs cfg (reinit cfg (reach cfg bs)) = obs cfg (reach cfg bs)
+  /\ (forall role index a, obsX (reinit cfg (reach cfg bs)) role index a = obsX (reach cfg bs) role index a)
   /\ sto (reinit cfg (reach cfg bs)) = sto (reach cfg bs)
   /\ Coh cfg (reinit cfg (reach cfg bs)).
 Proof.
   intros CW F7 F23 F47 CS bs OK.
   pose proof (cache_coherent cfg CW F7 F23 F47 CS bs OK) as C.
-  exact (conj (coherent_obs cfg _ C) (conj (reinit_sto cfg _) (reinit_coh cfg CS _ C))).
+  exact (conj (coherent_obs cfg _ C) (conj (fun role index a => coherent_obsX cfg _ role index a C) (conj (reinit_sto cfg _) (reinit_coh cfg CS _ C)))).
 Qed.
 
 Lemma restart_transparent_full cfg : cfg_wf cfg -> fix_block_dirty cfg = true -> fix_gpv_drop cfg = true -> fix_whitelist cfg = true ->
   0 < csize cfg -> forall bs bs', blocks_ok cfg bs -> blocks_ok cfg bs' ->
   sto (fold_left (step cfg) bs' (reinit cfg (reach cfg bs))) = sto (fold_left (step cfg) bs' (reach cfg bs))
-  /\ obs cfg (fold_left (step cfg) bs' (reinit cfg (reach cfg bs))) = obs cfg (fold_left (step cfg) bs' (reach cfg bs)).
+  /\ obs cfg (fold_left (step cfg) bs' (reinit cfg (reach cfg bs))) = obs cfg (fold_left (step cfg) bs' (reach cfg bs))
+  /\ (forall role index a, obsX (fold_left (step cfg) bs' (reinit cfg (reach cfg bs))) role index a
+                           = obsX (fold_left (step cfg) bs' (reach cfg bs)) role index a).
 Proof. intros CW F7 F23 F47 CS bs bs' OK OK'. exact (restart_transparent cfg CW F7 F23 F47 CS bs bs' OK OK'). Qed.
 
 Lemma restarts_transparent_full cfg : cfg_wf cfg -> fix_block_dirty cfg = true -> fix_gpv_drop cfg = true -> fix_whitelist cfg = true ->
   0 < csize cfg -> forall es, blocks_ok cfg (gblocks es) ->
   sto (fold_left (gstep cfg) es (genesis cfg)) = sto (reach cfg (gblocks es))
-  /\ obs cfg (fold_left (gstep cfg) es (genesis cfg)) = obs cfg (reach cfg (gblocks es)).
+  /\ obs cfg (fold_left (gstep cfg) es (genesis cfg)) = obs cfg (reach cfg (gblocks es))
+  /\ (forall role index a, obsX (fold_left (gstep cfg) es (genesis cfg)) role index a = obsX (reach cfg (gblocks es)) role index a).
 Proof. intros CW F7 F23 F47 CS es OK. exact (restarts_transparent cfg CW F7 F23 F47 CS es OK). Qed.
 
 Lemma cache_coherent_refuted_F7 :
